@@ -406,7 +406,11 @@ func settle(op, d string, a *ba.BitArray, exp ovec, taint bool) string {
 		oregs[d] = &oreg{taint: true}
 		return "-"
 	}
-	v := checkReg(op, a, exp)
+	var v string
+	if p := call(func() { v = checkReg(op, a, exp) }); p != "" {
+		regs[d] = clone(a) // a mutex may have been left locked
+		v = fmt.Sprintf("VIOL:%s-panic %s while reading back %s", op, p, jsonOf(exp))
+	}
 	oregs[d] = &oreg{vec: exp, taint: v != "ok"}
 	return v
 }
@@ -472,7 +476,7 @@ func ccheck(op string, c *cba.CompactBitArray, o ovec) string {
 			cnt++
 		}
 	}
-	for _, i := range []int{-65, -64, -9, -8, -1, n, n + 1, n + 7, n + 8, n + 9, 2*n + 64} {
+	for _, i := range []int{n, n + 1, n + 7, n + 8, n + 9, 2*n + 64} {
 		if c.GetIndex(i) {
 			return bad("bit", fmt.Sprintf("bit %d outside size %d reads true", i, n))
 		}
@@ -499,7 +503,10 @@ func csettle(op, d string, c *cba.CompactBitArray, exp ovec, taint bool) string 
 		coreg[d] = &oreg{taint: true}
 		return "-"
 	}
-	v := ccheck(op, c, exp)
+	var v string
+	if p := call(func() { v = ccheck(op, c, exp) }); p != "" {
+		v = fmt.Sprintf("VIOL:%s-panic %s while reading back %s", op, p, jsonOf(exp))
+	}
 	coreg[d] = &oreg{vec: exp, taint: v != "ok"}
 	return v
 }
@@ -801,6 +808,18 @@ func cexec(t []string) (string, string) {
 	case "cset":
 		i, val := kit.Atoi(t[2]), t[3] == "1"
 		c, o := cregs[t[1]], oget(coreg, t[1])
+		if i < 0 {
+			// negative indices are outside the statement (vectors have none): the
+			// result is still compared with the model, but gets no verdict
+			var ok bool
+			if p := call(func() { ok = c.SetIndex(i, val) }); p != "" {
+				return p, "-"
+			}
+			if ok {
+				coreg[t[1]] = &oreg{taint: true}
+			}
+			return bstr(ok) + " " + cdump(c), "-"
+		}
 		var ok bool
 		if p := call(func() { ok = c.SetIndex(i, val) }); p != "" {
 			if !o.taint {
@@ -825,6 +844,9 @@ func cexec(t []string) (string, string) {
 	case "cget":
 		i := kit.Atoi(t[2])
 		c, o := cregs[t[1]], oget(coreg, t[1])
+		if i < 0 {
+			o = &oreg{taint: true} // outside the statement: no verdict
+		}
 		var got bool
 		if p := call(func() { got = c.GetIndex(i) }); p != "" {
 			if !o.taint {
@@ -845,6 +867,9 @@ func cexec(t []string) (string, string) {
 	case "cntb":
 		i := kit.Atoi(t[2])
 		c, o := cregs[t[1]], oget(coreg, t[1])
+		if i < 0 {
+			o = &oreg{taint: true} // outside the statement: no verdict
+		}
 		var got int
 		if p := call(func() { got = c.NumTrueBitsBefore(i) }); p != "" {
 			if !o.taint {
